@@ -658,9 +658,18 @@ def r13_2_replace(ctx, prog, rule="R13.2"):
         for nme, v in pa.choices:
             if str(nme).startswith("variant(ret:into@"):
                 var = v
-        pos = pa.choice(r"^variant\(ret:position@")
+        # the first-match search over sa.attributes: position / find with a predicate (both stop at the first match)
+        pc = pa.calls_to(r"Iterator>::(position|find)::<")
+        pos = pa.choice(r"^variant\(ret:(position|find)@")
         w = [(x[2], x[3]) for x in pa.writes if x[0] == "write" and x[1] == "sa"]
         we = [x for x in pa.writes if x[0] == "write-elem"]
+        # a store through the `&mut` element that find() returned on sa.attributes.iter_mut()
+        wf = []
+        for x in pa.writes:
+            if x[0] == "write" and isinstance(x[1], str) and re.match(r"obj:ret:find@.*\.some$", x[1]) and x[2] == () and pc:
+                recv = C.expr_of(pa, pc[0][2][0])
+                if "iter_mut" in repr(recv) and "top:sa.attributes" in repr(recv):
+                    wf.append(x)
         pushes = pa.calls_to(r"Vec::<.*>::push$")
         idx = pa.calls_to(r"IndexMut<usize>>::index_mut$|index_mut$")
         if var in slot:
@@ -670,16 +679,22 @@ def r13_2_replace(ctx, prog, rule="R13.2"):
         else:
             key = "add:other:position=%s" % pos
             if pos == "Some":
-                ok = not w and not pushes and (len(idx) == 1 or len(we) == 1)
+                ok = not w and not pushes and (len(idx) + len(we) + len(wf) == 1)
                 if ok and idx:
                     ok = "position" in repr(C.expr_of(pa, idx[0][2][1])) and "sa.attributes" in repr(idx[0][2][0])
-                why = "existing type: %d indexed overwrite, %d push" % (len(idx) + len(we), len(pushes))
+                if ok and wf:
+                    ok = "into" in repr(wf[0][3])          # the element is overwritten with the attribute being added
+                why = "existing type: %d overwrite of the found element, %d push" % (len(idx) + len(we) + len(wf), len(pushes))
             else:
                 ok = not w and len(pushes) == 1 and "sa.attributes" in repr(pushes[0][2][0]) and "into" in repr(pushes[0][2][1])
                 why = "new type: %d push" % len(pushes)
-            # the position predicate compares attribute types
-            pc = pa.calls_to(r"Iterator>::position::<")
-            ok = ok and len(pc) == 1
+            # the search predicate compares attribute types (checked below); what it captures is the added attribute or its type
+            ok = ok and len(pc) == 1 and "top:sa.attributes" in repr(C.expr_of(pa, pc[0][2][0]))
+            if ok:
+                caps = C.expr_of(pa, pc[0][2][1])
+                ok = isinstance(caps, str) or (isinstance(caps, tuple) and all("into" in repr(c) for c in caps[1:]))
+                if not ok:
+                    why += "; the predicate captures %s" % show(caps)[:80]
         if key not in seen or not ok:
             seen[key] = (ok, why, pa)
     for key, (ok, why, pa) in sorted(seen.items()):
@@ -690,8 +705,17 @@ def r13_2_replace(ctx, prog, rule="R13.2"):
         paths, info = C.explore_fn(prog, b.path, "c", [])
         for pa in paths:
             r = _ret(pa)
-            ok = isinstance(r, tuple) and r[0].endswith("eq") and "attribute_type" in repr(r[1]) and "attribute_type" in repr(r[2])
-            ctx.ob(rule, "add-position-predicate", ok, "position predicate = %s" % show(r)[:160], b.where())
+            # eq(attribute_type(element), attribute_type(captured attribute))  or  eq(attribute_type(element), captured type)
+            def is_elem_type(x):
+                return isinstance(x, tuple) and x[0] == "StunAttribute::attribute_type" and isinstance(x[1], str) and re.match(r"top:(a|arg2)(\.\*)*$", x[1])
+
+            def is_capt_type(x):
+                if isinstance(x, tuple) and x[0] == "StunAttribute::attribute_type":
+                    x = x[1]
+                return isinstance(x, str) and re.match(r"top:arg1\.0(\.\*)*$", x) is not None
+            ok = isinstance(r, tuple) and len(r) == 3 and r[0].endswith("eq") and \
+                ((is_elem_type(r[1]) and is_capt_type(r[2])) or (is_elem_type(r[2]) and is_capt_type(r[1])))
+            ctx.ob(rule, "add-position-predicate", bool(ok), "position predicate = %s" % show(r)[:160], b.where())
     ctx.floor(rule, "add closures", len(cl), 1)
     # remove::<T>: a dedicated slot is taken, or the first attribute of the type is removed *preserving the order of
     # the others* (Vec::remove at the found position; swap_remove / retain-by-other-key would reorder or over-delete)
@@ -704,9 +728,14 @@ def r13_2_replace(ctx, prog, rule="R13.2"):
         mut = [e for e in pa.calls if re.search(MUT, e[1]) and e[3] and e[3][:2] == ("sa", "attributes")]
         w = sorted({x[2] for x in pa.writes if x[0] == "write" and x[1] == "sa"})
         r = _ret(pa)
+        pcr = pa.calls_to(r"Iterator>::position::<")
+        caps_ok = True
+        for e in pcr:
+            caps = C.expr_of(pa, e[2][1])
+            caps_ok = caps_ok and (isinstance(caps, str) or (isinstance(caps, tuple) and all("get_type" in repr(c) for c in caps[1:])))
         if pos == "Some":
             key = "remove:found"
-            ok = len(mut) == 1 and re.search(r"Vec::<.*>::remove$", mut[0][1]) is not None and not w
+            ok = len(mut) == 1 and re.search(r"Vec::<.*>::remove$", mut[0][1]) is not None and not w and caps_ok
             if ok:
                 a = C.expr_of(pa, mut[0][2])
                 ok = "position" in repr(a[1]) and isinstance(r, tuple) and r[0] == "Option::Some" and isinstance(r[1], tuple) and r[1][0] == "Vec::remove"
@@ -730,8 +759,11 @@ def r13_2_replace(ctx, prog, rule="R13.2"):
         paths, info = C.explore_fn(prog, b.path, "c", [])
         for pa in paths:
             r = _ret(pa)
-            ok = isinstance(r, tuple) and r[0].endswith("eq") and {repr(r[1])[:34], repr(r[2])[:34]} == \
-                {repr(("StunAttribute::attribute_type", "top:a"))[:34], repr(("T::get_type",))[:34]}
+            sides = {repr(r[1])[:34], repr(r[2])[:34]} if isinstance(r, tuple) and len(r) == 3 else set()
+            elem = repr(("StunAttribute::attribute_type", "top:a"))[:34]
+            # the type searched for: T::get_type() evaluated in the predicate, or captured after being evaluated in remove()
+            ok = isinstance(r, tuple) and r[0].endswith("eq") and elem in sides and \
+                (repr(("T::get_type",))[:34] in sides or any(re.match(r"'top:arg1\.0(\.\*)*'$", x) for x in sides))
             ctx.ob(rule, "remove-position-predicate", ok, "position predicate = %s" % show(r)[:160], b.where())
     ctx.floor(rule, "remove closures", len(cl), 1)
 
@@ -1017,10 +1049,14 @@ def r4_7_input_text(ctx, prog, rule="R4.7"):
     # the two quantities, found by dataflow rather than by name: the prefix end is what flows into the bound of
     # check_buffer_boundaries(buffer, _), the patched length is what flows into Option::ok_or_else(_)
     def operand_locals(x):
+        """(local, field) pairs an operand / rvalue reads; field = index of a leading tuple-field projection, else None"""
         out = set()
         if isinstance(x, dict):
-            if "place" in x and isinstance(x["place"], dict) and "l" in x["place"]:
-                out.add(x["place"]["l"])
+            pl = x.get("place")
+            if isinstance(pl, dict) and "l" in pl:
+                pr = pl.get("p", [])
+                fld = pr[0].get("i") if pr and pr[0].get("k") == "field" and pr[0].get("name") != "pos" else None
+                out.add((pl["l"], fld))
             for k, v in x.items():
                 if k != "place":
                     out |= operand_locals(v)
@@ -1042,10 +1078,16 @@ def r4_7_input_text(ctx, prog, rule="R4.7"):
             return False
         return walk(rv)
 
+    getters = {b2.path for b2 in prog.bodies.values() if re.search(r"RawAttributesIter(::)?(<.*>)?::pos$", b2.path) and len(b2.blocks) <= 2}
+    consts = {}
+
     def back_slice(seeds):
-        """flow-insensitive backward slice over whole-local assignments: -> (locals, {block: statement} reading iter.pos)"""
+        """flow-insensitive backward slice over whole-local assignments, sensitive to the fields of tuple aggregates:
+        -> (tracked (local, field) pairs, blocks whose statement / getter call reads iter.pos); constants assigned to
+        sliced locals are collected in consts[seed set]"""
         locs = set(seeds)
         src = set()
+        cs = consts.setdefault(frozenset(seeds), set())
         changed = True
         while changed:
             changed = False
@@ -1053,28 +1095,44 @@ def r4_7_input_text(ctx, prog, rule="R4.7"):
                 if blk["cleanup"]:
                     continue
                 for st in blk["stmts"]:
-                    if st["k"] == "assign" and st["place"]["l"] in locs:
-                        if reads_iter_pos(st["rv"]):
+                    if st["k"] != "assign" or st["place"]["p"]:
+                        continue
+                    L = st["place"]["l"]
+                    for (l0, f0) in [x for x in locs if x[0] == L]:
+                        rv = st["rv"]
+                        if f0 is not None and rv["k"] == "aggregate" and f0 < len(rv.get("ops", [])):
+                            rv = rv["ops"][f0]              # only the component that was read
+                        if reads_iter_pos(rv):
                             src.add(b2)
-                        new = operand_locals(st["rv"]) - locs
+                        if rv.get("k") == "use" and rv["op"]["k"] == "const" and "bits" in rv["op"]:
+                            cs.add(int(rv["op"]["bits"]))
+                        if rv.get("k") == "const" and "bits" in rv:
+                            cs.add(int(rv["bits"]))
+                        new = operand_locals(rv) - locs
                         if new:
                             locs |= new
                             changed = True
                 t = blk["term"]
-                if t["k"] == "call" and t.get("dest") and t["dest"]["l"] in locs and \
-                        re.search(r"::(into|from|try_into|try_from|clone|unwrap_or|unwrap_or_default)$", (t["func"].get("fn") or {}).get("full", "")):
-                    new = operand_locals(t["args"]) - locs
-                    if new:
-                        locs |= new
-                        changed = True
+                if t["k"] == "call" and t.get("dest") and not t["dest"]["p"] and any(x[0] == t["dest"]["l"] for x in locs):
+                    full = (t["func"].get("fn") or {}).get("rpath") or (t["func"].get("fn") or {}).get("full", "")
+                    if getters and re.search(r"RawAttributesIter(::<.*>)?::pos$", full):
+                        src.add(b2)                 # iter.pos(): the accessor of the same field
+                    if re.search(r"::(into|from|try_into|try_from|clone|unwrap_or|unwrap_or_default|branch|ok_or|ok_or_else|unwrap|expect)(::<.*>)?$",
+                                 (t["func"].get("fn") or {}).get("full", "")):
+                        new = operand_locals(t["args"]) - locs
+                        if new:
+                            locs |= new
+                            changed = True
         return locs, src
     cbb = [c for c in body.calls() if re.search(r"check_buffer_boundaries$", c.callee_path)]
-    oks = [c for c in body.calls() if re.search(r"Option::<.*>::(ok_or_else|ok_or)", c.callee_path)]
-    if len(cbb) != 1 or len(oks) != 1:
-        ctx.anchor_missing(rule, "get_input_text: one check_buffer_boundaries and one Option::ok_or(_else) call (%d / %d)" % (len(cbb), len(oks)))
+    # the 16-bit value patched into the copy: the value operand of BigEndian::write_u16 / the receiver of u16::to_be_bytes
+    lens = [c.term["args"][1:2] for c in body.calls() if re.search(r"ByteOrder>::write_u16$", c.callee_path)] + \
+           [c.term["args"][0:1] for c in body.calls() if re.search(r"<impl u16>::to_be_bytes$", c.callee_path)]
+    if len(cbb) != 1 or len(lens) != 1:
+        ctx.anchor_missing(rule, "get_input_text: one check_buffer_boundaries call and one 16-bit length patch (%d / %d)" % (len(cbb), len(lens)))
         return
     _pl, pos_src = back_slice(operand_locals(cbb[0].term["args"][1:2]))
-    _ll, len_src = back_slice(operand_locals(oks[0].term["args"][0:1]))
+    _ll, len_src = back_slice(operand_locals(lens[0]))
     # the switch that compares attr_type with raw_attr.attr_type: a switch inside the loop on an Eq of two u16
     sw = None
     for bi, blk in enumerate(body.blocks):
@@ -1101,10 +1159,16 @@ def r4_7_input_text(ctx, prog, rule="R4.7"):
     on_false = cfg.reachable(false_t, cut_blocks=[head])
 
     after_cmp = on_true | on_false          # the rest of an iteration (and, for an edge that leaves the loop, what follows)
-    a_pos = pos_src & after_cmp
-    a_len = len_src & after_cmp
-    ok1 = bool(a_len) and a_len <= on_true and not (a_len & on_false) and len_src <= after_cmp
-    ok2 = bool(a_pos) and a_pos <= on_false and not (a_pos & on_true) and pos_src <= after_cmp
+    # the patched length is iter.pos read after the matching next(): its reads sit on the match edge only
+    ok1 = bool(len_src) and len_src <= on_true and not (len_src & on_false)
+    # the prefix end is iter.pos as it was before the matching next(): it is never read on the match edge, it is read
+    # again between any two next() calls (no cycle through the call avoids a read), and when the call can be reached
+    # without a read the variable still holds its initial constant 0 (= the iterator's initial position, R3.5)
+    nxt = cfg.succ[head][0][0] if cfg.succ[head] else head
+    cycle_free = head not in cfg.reachable(nxt, cut_blocks=pos_src - {head})
+    first_needs_init = head in cfg.reachable(0, cut_blocks=pos_src)
+    init_ok = (not first_needs_init) or consts.get(frozenset(operand_locals(cbb[0].term["args"][1:2])), set()) <= {0}
+    ok2 = bool(pos_src) and not (pos_src & on_true) and cycle_free and init_ok
     # after a match the loop head is not reached again
     ok3 = head not in cfg.reachable(true_t)
     ctx.ob(rule, "input-text:loop-structure", ok1 and ok2 and ok3,
@@ -1120,7 +1184,8 @@ def r18_6_unknown_new(ctx, prog, rule="R18.6"):
     paths, info = C.explore_fn(prog, U + "::new", "x", [r"\{closure"])
     ctx.fn(info["body"])
     seen = {}
-    allowed = re.compile(r"Into<.*>>::into$|^T::into$|::into$")
+    # conversions only: Into::into of the argument, and the function items given to Option::map (Vec::from, Arc::new)
+    allowed = re.compile(r"Into<.*>>::into$|^T::into$|::into$|^<std::vec::Vec<u8> as std::convert::From<.*>>::from$|^std::sync::Arc::<.*>::new$")
     for pa in paths:
         given = None
         for nme, v in pa.choices:
